@@ -11,7 +11,8 @@ RULE = ("one evaluation = one document: to_json_data(x) for decoded or normalize
         "distinct = md5 of the canonical dump")
 DECIDING = ["checks:C07.to_json_post", "checks:C07.text_cycle"]
 EVAL_COUNTER = "evaluations"
-ASSUMPTIONS = ["ints are bounded at 4000 decimal digits (3.10.13+ refuse longer int<->str conversions by interpreter policy)",
+ASSUMPTIONS = ["integer constants include values beyond the interpreter's 4300-digit limit on decimal string conversion (hex literals); harness-side code "
+               "(dis, witnesses) runs with that limit lifted, the library under test always under the default limit",
                "offline validators: jsonschema 4.26 (python3-vt), fastjsonschema + orjson (/venv); a document they disagree on is inconclusive",
                "all NaNs are identified when code objects are compared, as the property states"]
 TIMEOUT = {"quick": 1200, "thorough": 7200}
